@@ -272,6 +272,26 @@ func drivePlugin(cfg *hx.RunCfg) error {
 				}
 				u.close()
 			}
+			// protocol upgrade (WebSocket style) through the plugin, then bytes both ways
+			if uu, err := pr.dial(fmt.Sprintf("127.0.2.%d", 2+g.Intn(250)), rt.domain); err == nil {
+				up, down := g.Bytes(60000+g.Intn(60000)), g.Bytes(60000+g.Intn(60000))
+				be.mu.Lock()
+				be.tunDown, be.tunUpLen = down, len(up)
+				be.mu.Unlock()
+				be.drain()
+				for len(be.tunGot) > 0 {
+					<-be.tunGot
+				}
+				head := "GET /chat HTTP/1.1\r\nHost: " + rt.domain + "\r\nConnection: Upgrade\r\nUpgrade: websocket\r\nSec-WebSocket-Key: dGhlIHNhbXBsZSBub25jZQ==\r\nSec-WebSocket-Version: 13\r\n\r\n"
+				accepted, upRecv, downRecv := tunnelExchange(uu, be, head, up, down, false)
+				uu.close()
+				cases = append(cases, fmt.Sprintf("CTunnel 3 %s %s %s %s %s", hx.Bool(accepted), hx.HxS(bodyID(up)), hx.HxS(bodyID(upRecv)), hx.HxS(bodyID(down)), hx.HxS(bodyID(downRecv))))
+				st.dist["plugin-upgrade:"+kind]++
+				if !accepted || bodyID(up) != bodyID(upRecv) || bodyID(down) != bodyID(downRecv) {
+					st.fail("impl:tunnel-not-transparent:plugin-upgrade", fmt.Sprintf("upgrade through plugin %s: accepted=%v up %s/%s down %s/%s", kind, accepted,
+						bodyID(up), bodyID(upRecv), bodyID(down), bodyID(downRecv)), kind)
+				}
+			}
 			pr.close()
 		}
 	}
@@ -280,7 +300,7 @@ func drivePlugin(cfg *hx.RunCfg) error {
 		Typ:     "case",
 		Cases:   cases,
 		Tail: "Definition M := Eval vm_compute in mismatches check_case cases.\nPrint M.\n" +
-			counter("NH2H", "(is_plug HrH2H)") + counter("NH2HS", "(is_plug HrH2HS)") + counter("NHS2H", "(is_plug HrHS2H)") + counter("NHS2HS", "(is_plug HrHS2HS)"),
+			counter("NH2H", "(is_plug HrH2H)") + counter("NH2HS", "(is_plug HrH2HS)") + counter("NHS2H", "(is_plug HrHS2H)") + counter("NHS2HS", "(is_plug HrHS2HS)") + counter("NPLUGUPGRADE", "(is_tunnel 3)"),
 	}
 	if err := cf.Write(cfg.Out); err != nil {
 		return err
